@@ -390,6 +390,20 @@ func (fr *Frame) definePhi(phi *ssa.Phi, blk *ssa.BasicBlock, ins []edgeIn) {
 		t = ite(es[i].g, es[i].v.T, t)
 	}
 	v := Val{T: t, Ty: phi.Type()}
+	// time values: merge the locations they carry
+	anyZone := false
+	for _, e := range es {
+		if e.v.Zone != "" {
+			anyZone = true
+		}
+	}
+	if anyZone {
+		z := u.zoneOf(es[len(es)-1].v)
+		for i := len(es) - 2; i >= 0; i-- {
+			z = ite(es[i].g, u.zoneOf(es[i].v), z)
+		}
+		v.Zone = z
+	}
 	// keep static function knowledge if all equal
 	allFn := es[0].v.Fn
 	for _, e := range es {
@@ -482,7 +496,7 @@ func (fr *Frame) enterLoop(order []*ssa.BasicBlock, h *ssa.BasicBlock, ins []edg
 	}
 	for i, c := range invs {
 		for _, pc := range fr.splitClause(c) {
-			t := fr.trInvariant(pc.c, pre, h)
+			t := fr.trInvariantTol(pc.c, pre, h, "false")
 			u.oblige(pre, "inv-entry", fmt.Sprintf("%s/inv-entry:%d.%s%s", fr.fnLabel(), ord, clauseName(c, i), pc.suffix), t, blockPos(h), c, "loop invariant holds on entry: "+pc.c.Src)
 		}
 	}
@@ -657,7 +671,7 @@ func (fr *Frame) enterLoop(order []*ssa.BasicBlock, h *ssa.BasicBlock, ins []edg
 	fr.openLoops[h] = lc
 	// 5. assume invariants
 	for _, c := range invs {
-		t := fr.trInvariant(c, st, h)
+		t := fr.trInvariantTol(c, st, h, "true")
 		u.assumeG(st, t)
 	}
 	if len(invs) == 0 {
@@ -723,7 +737,7 @@ func (fr *Frame) closeLoop(lc *loopCtx, from *ssa.BasicBlock, st *State) {
 	}
 	for i, c := range invs {
 		for _, pc := range fr.splitClause(c) {
-			t := fr.trInvariant(pc.c, st, h)
+			t := fr.trInvariantTol(pc.c, st, h, "false")
 			u.oblige(st, "inv-keep", fmt.Sprintf("%s/inv-keep:%d.%s%s", fr.fnLabel(), lc.ordinal, clauseName(c, i), pc.suffix), t, blockPos(from), c, "loop invariant preserved: "+pc.c.Src)
 		}
 	}
@@ -870,6 +884,15 @@ func (fr *Frame) exec(st *State, in ssa.Instruction) {
 		u.abstracted = true
 		u.note("go statement in %s: spawned function not executed here (abstracted)", fr.fn)
 		// ghost event: visible to contracts as called("go.stmt") / count("go.stmt")
+		// "go:<spawned function>" carries the arguments handed to the spawned function (arg0..)
+		if gn := goCalleeName(i); gn != "" {
+			var gargs []Val
+			for _, a := range i.Call.Args {
+				gargs = append(gargs, fr.get(a))
+			}
+			fr.atCall(st, "go:"+gn, gargs, i.Pos())
+			fr.afterCallA(st, "go:"+gn, Val{T: "true", S: "Bool"}, gargs)
+		}
 		fr.afterCall(st, "go.stmt", Val{T: "true", S: "Bool"})
 	case *ssa.Send:
 		u.abstracted = true
@@ -1589,4 +1612,17 @@ func (fr *Frame) innermostLoopHeader(b *ssa.BasicBlock) *ssa.BasicBlock {
 		}
 	}
 	return best
+}
+
+// goCalleeName: the name of the function a go statement spawns (closure or static function), "" when dynamic
+func goCalleeName(i *ssa.Go) string {
+	switch v := i.Call.Value.(type) {
+	case *ssa.MakeClosure:
+		if f, ok := v.Fn.(*ssa.Function); ok {
+			return f.Name()
+		}
+	case *ssa.Function:
+		return v.Name()
+	}
+	return ""
 }
